@@ -90,8 +90,8 @@ UnitOk(q, lit, suf, obs) ==
         /\ obs.k = "ok"
         /\ \/ Close(obs.v, v, AbsTol([d |-> <<>>]))                                            \* base unit
            \/ q = "temperature" /\ Close(obs.v, DAdd(v, [neg |-> FALSE, d |-> <<2,7,3,1,5>>, e |-> -2]), AbsTol([d |-> <<1>>]))
-    ELSE IF R = {} THEN obs.k = "err"                                                          \* not defined for the quantity
-    ELSE obs.k = "err" \/ \E x \in R : Close(obs.v, Expected(v, x), AbsTol(x.off))
+    ELSE IF R = {} THEN Rejected(obs)                                                        \* not defined for the quantity
+    ELSE Rejected(obs) \/ \E x \in R : Close(obs.v, Expected(v, x), AbsTol(x.off))
 
 (* ---------------- amplitude (PK / PP / RMS) and decibel suffixes ---------------- *)
 EndsIC(s, tail) == Len(s) >= Len(tail) /\ UpperSeq(SubSeq(s, Len(s) - Len(tail) + 1, Len(s))) = tail
@@ -104,7 +104,7 @@ AmpClass(suf) ==
 AmpOk(q, lit, suf, obs) ==
     LET c == AmpClass(suf) IN
     /\ (obs.k = "ok" => obs.cls = c.cls)
-    /\ (IF c.rest = <<>> /\ suf # <<>> THEN obs.k = "err"          \* a bare PK / PP / RMS names no unit of the quantity
+    /\ (IF c.rest = <<>> /\ suf # <<>> THEN Rejected(obs)        \* a bare PK / PP / RMS names no unit of the quantity
         ELSE UnitOk(q, lit, c.rest, obs))
 
 (* decibel suffixes: DB[multiplier]unit for voltage / power / current (DBM = DBMW), DB for a ratio;
@@ -119,7 +119,7 @@ DbOk(q, lit, suf, obs) ==
     LET v == ParseNRf(lit)  hits == {x \in DbRefs(q) : x.n = UpperSeq(suf)} IN
     IF suf = <<>> THEN obs.k = "ok" /\ obs.cls = "none" /\ Close(obs.num, v, AbsTol([d |-> <<>>]))
     ELSE IF hits # {} THEN
-        obs.k = "err" \/ (obs.cls = "log" /\ Close(obs.num, v, AbsTol([d |-> <<>>]))
+        Rejected(obs) \/ (obs.cls = "log" /\ Close(obs.num, v, AbsTol([d |-> <<>>]))
                              /\ \E x \in hits : Close(obs.v, x.ref, AbsTol([d |-> <<>>])))
     ELSE (obs.k = "ok" => obs.cls = "lin") /\ UnitOk(q, lit, suf, obs)
 =========================================================================
